@@ -320,7 +320,7 @@ def c18_variants(sc, seed):
     b = copy.deepcopy(sc)
     b["model"]["class"] = "psi"
     b["model"]["psi"] = random.Random(seed).choice([1.0, 1, "1_0", "1", "1.0"])
-    if random.Random(seed + 4).random() < 0.15 and not sc["events"]:
+    if seed % 6 == 0:
         # a step of 49 temporal units (a restoration time of one step is 49 units; 49 * (1 / 49) is not 1 in floats)
         for m_ in (a, b):
             m_["model"]["dt"] = 49
